@@ -82,7 +82,8 @@ def main():
             results[mu["id"]] = {"status": "caught" if p.returncode == 1 and viol else ("harness-error" if p.returncode == 2 else "missed"),
                                  "exit": p.returncode, "violating_runs": int(mvr.group(1)) if mvr else None,
                                  "runs": int(runs.group(1)) if runs else None, "oracles": oracles,
-                                 "wall_s": round(dt, 1), "scale": a.scale, "tier": a.tier, "needs": mu["needs"], "tests": tests}
+                                 "wall_s": round(dt, 1), "scale": a.scale, "tier": a.tier, "needs": mu["needs"], "tests": tests,
+                                 "expect": mu.get("expect", "caught"), "registered_tier": mu.get("tier", "quick")}
             print(f"{mu['id']}: {results[mu['id']]['status']} exit={p.returncode} "
                   f"violating={results[mu['id']]['violating_runs']}/{results[mu['id']]['runs']} oracles={oracles} {dt:.0f}s"
                   + (f" tests: {tests}" if tests else ""), flush=True)
